@@ -473,7 +473,7 @@ pub fn run_check(ctx: &Ctx) -> i32 {
         .set("samples", json!([{"cfg": format!("{:?}", cfgs[0]), "mutation": "bitflip:plain-header (byte 1 bit 0: session id)"}]));
     ev.assume("group sessions are not part of this sweep (unicast CASE and PASE only); header shapes are those the sending API can produce");
     ev.assume("replay of an unaltered datagram is C04/C09 territory (duplicates are re-acknowledged, which changes the transmit counter)");
-    if inj == 0 || ok == 0 {
+    if report.violations.is_empty() && (inj == 0 || ok == 0) {
         eprintln!("MACHINERY: vacuous C03 run (injections {}, accepted {})", inj, ok);
         return 2;
     }
